@@ -17,6 +17,7 @@ type sgen struct {
 	t     *rapid.T
 	toks  []string
 	depth int
+	names []string // optional vocabulary override (all Name positions)
 }
 
 func (g *sgen) emit(s ...string)         { g.toks = append(g.toks, s...) }
@@ -34,8 +35,13 @@ var plainNames = []string{"a", "b", "foo", "_x", "A1", "T", "Int", "String", "__
 var HostileStrings = []string{"", "s", "hello world", `q"uote`, `back\slash`, "tab\there", "line\nbreak", "cr\rhere", "\b\f", "\u0007bell", "\u007fdel",
 	"\u0000nul", "\u001fus", "ünï", "世界", "\U0001F600", " ls", "\ufeffbom", "\ufffd", "/slash", `"""`, `trailing"`, `\"""`, "  lead", "trail  ", "#nocomment", "a,b]c}", `A`, "\u0085nel"}
 
-func (g *sgen) name() string      { return g.pick(plainNames) }
-func (g *sgen) anyName() string   { return g.pick(names) }
+func (g *sgen) name() string { return g.anyName() }
+func (g *sgen) anyName() string {
+	if len(g.names) > 0 {
+		return g.pick(g.names)
+	}
+	return g.pick(names)
+}
 func (g *sgen) fragName() string  { // Name but not on
 	for {
 		n := g.anyName()
@@ -380,8 +386,11 @@ func (g *sgen) typeSystemDef() {
 }
 
 // GenDocumentTokens draws a grammatical token sequence. kind: "exec", "schema" or "mixed".
-func GenDocumentTokens(t *rapid.T, kind string) []string {
-	g := &sgen{t: t}
+func GenDocumentTokens(t *rapid.T, kind string) []string { return GenDocumentTokensWith(t, kind, nil) }
+
+// GenDocumentTokensWith is GenDocumentTokens with every Name drawn from vocabulary.
+func GenDocumentTokensWith(t *rapid.T, kind string, vocabulary []string) []string {
+	g := &sgen{t: t, names: vocabulary}
 	for i, n := 0, g.n(1, 4); i < n; i++ {
 		ts := kind == "schema" || (kind == "mixed" && g.chance(50))
 		switch {
